@@ -76,6 +76,7 @@ class Tree(object):
     def __init__(self, ctx, r, nm, tbl):
         self.ctx, self.r, self.nm, self.tbl = ctx, r, nm, tbl
         self.write_caps = set()        # every write cap linked somewhere in the tree
+        self.bare_secrets = set()      # write caps attached behind a repeated ro. mark: must never show up as a field or cap
         self.dirs = []                 # (node, kind, children spec)
         self.count = 0
 
@@ -86,6 +87,13 @@ class Tree(object):
                 c = self.tbl.add(D.gen_imm(r, r.choice(["CHK", "LIT", "DIR2-LIT"]))) if r.random() < 0.7 else self.tbl.add(D.gen_other(r))
                 w, ro = None, (c.s if c.cls == "imm" else r.choice([b"", D.RO, D.IMM]) + c.s)
                 n = self.nm.create_from_cap(w, ro, deep_immutable=True)
+            elif r.random() < 0.1:
+                # a write cap wrapped in ro.ro. / ro.ro.ro.: accepted as an unknown read-only cap; a reader must never get it bare
+                w, ro, label, secret = D.gen_multi_prefixed_caps(r, self.tbl)
+                n = self.nm.create_from_cap(w, ro)
+                self.ctx.count("multi-prefixed-attach:" + ("refused" if getattr(n, "error", None) is not None else "accepted"))
+                if getattr(n, "error", None) is None:
+                    self.bare_secrets.add(secret)
             elif r.random() < 0.15:
                 # an attachment the writer's node maker must refuse: prefix ro./imm. in front of a write-capable cap
                 w, ro, label, secret = D.gen_contradictory_caps(r, self.tbl)
@@ -172,6 +180,21 @@ def reader_view(store, dn):
     return out
 
 
+def bare_field_check(ctx, case, data, bare_secrets):
+    """No cleartext field of the directory may BE a write cap that the owner attached behind a repeated ro. mark."""
+    if not bare_secrets:
+        return
+    try:
+        entries = D.read_packed(data)
+    except Exception:
+        return
+    for (name, ro, rwc, _, md) in entries:
+        if ro in bare_secrets:
+            ctx.oracle_fail("write-cap-stored-bare-in-read-slot", "entry %r of the directory plaintext holds a bare write cap in its cleartext read-cap field "
+                            "(attached as ro.ro.<write cap>)" % (name.decode("utf-8", "replace"),), case=dict(case, entry=name),
+                            expected="a field that is not a write cap", observed=ro)
+
+
 def xor_attack(ctx, case, data, truth):
     """Given only what the read cap decrypts plus ONE known child write cap, no sibling's write cap may come out."""
     if len(truth) < 2:
@@ -213,6 +236,9 @@ def tree_case(ctx, i, terms, info):
             ctx.oracle_fail("descendant-of-readonly-root-is-writeable", "node at %r reached from the read-only root has write authority (%r)" % (path, obs[1]),
                             case=dict(case, path=path), expected=None, observed=obs[1])
         strings = [x for x in (obs[1], obs[2], node.get_uri() if obs[0] != "unknown" else node.get_uri(), repr(node).encode("utf-8", "replace")) if x]
+        if any(x in t.bare_secrets for x in (obs[1], obs[2], node.get_uri())):
+            ctx.oracle_fail("bare-write-cap-handed-to-read-cap-holder", "node at %r reached from the read-only root carries the write cap that was attached behind ro.ro." % (path,),
+                            case=dict(case, path=path), expected=None, observed=[obs[1], obs[2]])
         if IDirectoryNode.providedBy(node) and node.get_readonly_uri() not in real_dirs:
             ctx.count("dangling-directory-link")          # a random directory cap with nothing behind it on the grid
         elif IDirectoryNode.providedBy(node):
@@ -220,6 +246,7 @@ def tree_case(ctx, i, terms, info):
             if getattr(node._node, "get_writekey", lambda: None)() is not None:
                 ctx.oracle_fail("readonly-dirnode-has-writekey", "directory at %r reached read-only holds a writekey" % (path,), case=dict(case, path=path))
             strings += reader_view(store, node)
+            bare_field_check(ctx, dict(case, path=path), dir_plaintext(store, node), t.bare_secrets)
             xor_attack(ctx, dict(case, path=path), dir_plaintext(store, node), truth_by_dir.get(node.get_readonly_uri(), {}))
             children = D.fire(node.list())
             for name, (child, md) in children.items():
@@ -394,8 +421,17 @@ def flat_case(ctx, i, terms, info):
     kids = {}
     spec = []
     extra_secrets = []
+    bare_secrets, multi_names = set(), set()
     for _ in range(n_kids):
-        if r.random() < 0.12:
+        multi = False
+        if r.random() < 0.08:
+            w, ro, label, secret = D.gen_multi_prefixed_caps(r, tbl)
+            n = nm.create_from_cap(w, ro)
+            ctx.count("multi-prefixed-attach:" + ("refused" if getattr(n, "error", None) is not None else "accepted"))
+            multi = getattr(n, "error", None) is None
+            if multi:
+                bare_secrets.add(secret)
+        elif r.random() < 0.12:
             w, ro, label, secret = D.gen_contradictory_caps(r, tbl)
             n = nm.create_from_cap(w, ro)
             ctx.count("contradictory-attach:" + ("refused" if getattr(n, "error", None) is not None else "ACCEPTED"))
@@ -409,6 +445,9 @@ def flat_case(ctx, i, terms, info):
         name = D.nfc(D.gen_name(r))
         md = D.gen_metadata(r)
         kids[name] = (n, md)
+        multi_names.discard(name)
+        if multi:
+            multi_names.add(name)
         spec = [s for s in spec if s[0] != name] + [(name, w, ro, label, md)]
         ctx.count("child:" + label)
     packed = dirnode.pack_children(kids, wk)
@@ -418,7 +457,8 @@ def flat_case(ctx, i, terms, info):
     case = {"stream": "flat", "index": i, "kids": [[s[0], s[1], s[2], s[3]] for s in spec]}
     have_rw = [name for name, (n, md) in kids.items() if n.get_write_uri()]
     ctx.case(("f", tuple((s[0], s[1], s[2]) for s in spec)) if have_rw else None, kind="flat:%s" % ("<=4" if len(kids) <= 4 else ">4"))
-    if set(children) != set(kids):
+    # a child attached as ro.ro.<write cap> is stored as ro.<write cap>, which a reader rejects and drops: tolerated
+    if set(children) | multi_names != set(kids) or not set(children) <= set(kids):
         ctx.oracle_fail("readonly-listing-loses-children", "children differ when the directory is read through its read cap", case=case,
                         expected=sorted(kids), observed=sorted(children))
     secrets = list(extra_secrets)
@@ -435,6 +475,11 @@ def flat_case(ctx, i, terms, info):
                 ctx.oracle_fail("readonly-listing-child-differs", "child %r changes kind, read cap or metadata when read through the read cap" % (name,),
                                 case=case, expected=[o0, kids[name][1]], observed=[obs, md])
     store[dn._node.get_storage_index()] = packed
+    bare_field_check(ctx, case, packed, bare_secrets)
+    for name, (n, md) in children.items():
+        if any(x in bare_secrets for x in (n.get_write_uri(), n.get_readonly_uri(), n.get_uri())):
+            ctx.oracle_fail("bare-write-cap-handed-to-read-cap-holder", "child %r unpacked through the read cap carries the write cap attached behind ro.ro." % (name,),
+                            case=case, expected=None, observed=[n.get_write_uri(), n.get_readonly_uri()])
     xor_attack(ctx, case, packed, {name.encode("utf-8"): kids[name][0].get_write_uri() for name in have_rw})
     view = reader_view(store, dnro)
     for sec in secrets:
@@ -448,7 +493,8 @@ def flat_case(ctx, i, terms, info):
         exp = "[%s]" % "; ".join("(%s, (%s, %s))" % (D.B(name.encode("utf-8")), D.coq_node(D.node_obs(children[name][0])), D.B(dumps_md(children[name][1])))
                                 for name in sorted(children, key=lambda s: s.encode("utf-8")))
         kidl = "[%s]" % "; ".join("create_from_cap cls false %s %s" % (T.opt(D.B(s[1]) if s[1] is not None else None),
-                                                                       T.opt(D.B(s[2]) if s[2] is not None else None)) for s in spec)
+                                                                       T.opt(D.B(s[2]) if s[2] is not None else None))
+                                for s in spec if not s[3].startswith("multi-prefixed"))
         t = ("let cls := %s in forallb (fun n => stableb cls n && ro_slot_okb cls n) %s && "
              "match unpack_contents cls (fun x => x) bytes loads_raw (fun _ d => d) false true [] %s with inr ch => view_eqb (view bytes ch) %s | inl _ => false end"
              % (tbl.coq(used), kidl, D.B(packed), exp))
